@@ -44,6 +44,13 @@ func (l *fontLRU) Put(k *font.Font, v *harfbuzz.Font) {
 		l.head.prev = l.tail
 		l.tail.next = l.head
 	}
+	if lt, ok := l.m[k]; ok {
+		// replace the value of an existing entry
+		lt.v = v
+		l.remove(lt)
+		l.insert(lt)
+		return
+	}
 	val := &fontEntry{key: k, v: v}
 	l.m[k] = val
 	l.insert(val)
